@@ -689,6 +689,21 @@ func c08r4(c *Ctx, pkg string) {
 							case isOn(s, false):
 								return base, true
 							}
+							// dep == "" / dep[1:] == "" (same tests written on the string instead of its length)
+							if s.Kind == px.KBinOp && (s.Op == token.EQL || s.Op == token.NEQ) {
+								x, y := s.X, s.Y
+								if cs, ok := x.Strip(true).V.(*ssa.Const); ok && cs.Value != nil && cs.Value.Kind() == constant.String {
+									x, y = y, x
+								}
+								if cs, ok := y.Strip(true).V.(*ssa.Const); ok && y.Strip(true).Kind == px.KConst && cs.Value != nil && cs.Value.Kind() == constant.String && constant.StringVal(cs.Value) == "" {
+									switch {
+									case isDep(x):
+										return (form == "") == (s.Op == token.EQL), true
+									case isRest(x):
+										return (form == "!") == (s.Op == token.EQL), true
+									}
+								}
+							}
 							if s.Kind == px.KBinOp && (s.Op == token.EQL || s.Op == token.NEQ || s.Op == token.GTR) {
 								eq := s.Op == token.EQL
 								switch {
